@@ -81,7 +81,7 @@ def batch_exits(chk, n_tasks, jobs):
     ran = os.path.exists(os.path.join(root, "cond-out", "after.task", "ran"))
     if hung:
         return "cond run -j%d did not terminate after %d task(s) exited while it was stopped (one SIGCHLD for several exits); output so far: %r" % (jobs, len(first), text[-300:])
-    if rc != 0 or not ran or "Done!" not in text:
+    if rc != 0 or not ran:
         return "cond run -j%d exited %s (dependent executed: %s) after tasks exited in one batch: %r" % (jobs, rc, ran, text[-300:])
     return None
 
@@ -136,7 +136,7 @@ def many_fast_parallel(chk, runs, n=60, jobs=8):
         res = implrun.run_cond(["run", "//:all", "-j", str(jobs)], root, timeout=40)
         chk.coverage["evaluations"] += 1
         text = strip_ansi(res.out + res.err)
-        if res.code != 0 or "Done!" not in text:
+        if res.code != 0:
             return "cond run -j%d of %d immediately exiting parallelizable tasks ended with %s (a timeout means it never terminated) in run %d: %r" % (jobs, n, res.code, r, text[-300:])
     return None
 
